@@ -9,7 +9,7 @@
        e                      endOffset()
        l                      lowestOffset()
    output: one token per operation (the history ends at the first failed assert / fatal_dump),
-   then " | " the stored nodes in order as off+len, inmem_hi, elements, and the shape of the splay tree. *)
+   then " | " ("dead" after such an end, else) the stored nodes in order as off+len, inmem_hi, elements, and the shape of the splay tree. *)
 let pattern len seed = List.init len (fun i -> n_of_int ((seed + i) mod 251))
 
 let parse_op (s : string) =
@@ -34,7 +34,7 @@ let show_out = function
   | RFatal -> "FATAL"
   | RStuck -> "MODEL-STUCK"
 
-let show_node nd = string_of_z nd.n_off ^ "+" ^ string_of_n (lenN nd.n_data)
+let show_node nd = string_of_z nd.n_off ^ "+" ^ string_of_n nd.n_length ^ (if lenN nd.n_data = nd.n_length then "" else "MODEL-LENGTH-MISMATCH")
 let rec show_tree = function
   | Leaf -> "."
   | Node (l, x, r) -> "(" ^ show_tree l ^ " " ^ string_of_z x.n_off ^ " " ^ show_tree r ^ ")"
@@ -45,9 +45,10 @@ let () =
     let (outs, hf) = mh_run mh_empty ops in
     let b = Buffer.create 256 in
     List.iteri (fun i o -> if i > 0 then Buffer.add_char b ' '; Buffer.add_string b (show_out o)) outs;
+    if List.exists abnormal outs then Buffer.add_string b " | dead" else begin
     Buffer.add_string b " | ";
     Buffer.add_string b (String.concat "," (List.map show_node (inorder hf.h_nodes)));
     Buffer.add_string b (" hi=" ^ string_of_z hf.h_hi ^ " n=" ^ string_of_n hf.h_count ^ " ");
-    Buffer.add_string b (show_tree hf.h_nodes);
+    Buffer.add_string b (show_tree hf.h_nodes) end;
     Buffer.contents b);
   reg "const" (fun [] -> "page=" ^ string_of_n sm_page_size ^ " data=" ^ string_of_n mem_node_data_capacity)
